@@ -176,7 +176,11 @@ func (r *Run) Determinism(regionName string, reg map[*ssa.Function]*ssa.Function
 		}
 		seen[key+h.Sig] = true
 		if reason, ok := table[key]; ok {
-			if h.Sig != "" && !strings.HasPrefix(reason, h.Sig) {
+			sigPart := reason
+			if i := strings.Index(reason, " class"); i > 0 {
+				sigPart = reason[:i]
+			}
+			if h.Sig != "" && !strings.Contains(sigPart, h.Sig) {
 				r.viol("K9-determinism", h.Fn, h.What, fmt.Sprintf("the body of the map loop at %s:%d changed its order-sensitivity signature to %s (triaged as: %s): an early exit selects an arbitrary element, an append records iteration order", h.File, h.Line, h.Sig, reason), why, h.File, h.Line)
 				continue
 			}
